@@ -291,7 +291,7 @@ Proof.
     apply nfm_bind; [apply nfm_lift, nfr_nth_chk|]. intros s0. apply nfm_bind; [|intros _; apply IH; lia].
     destruct (fst s0).
     + destruct (is_last c ti) eqn:El; simpl; [apply nfm_vote|]. destruct (negb (has_active sb)); [apply nfm_vote|auto].
-    + apply nfm_vote.
+    + intros w r w' H. unfold nack_vote in H. apply fatalize_inv in H. destruct H as [r0 [H [->|[e [e' [_ ->]]]]]]; [eapply nfm_vote; eauto|discriminate].
     + apply nfm_bind; [apply nfm_lift, nfr_batch_ack|]. intros sb'.
       apply nfm_bind_lift; [apply nfr_retry_next|]. intros nx Hnx. eapply Ha; eauto.
     + destruct (is_last c ti) eqn:El; simpl; [apply nfm_vote|]. destruct (negb (has_active sb)); [apply nfm_vote|auto].
